@@ -362,6 +362,27 @@ const NAME_OVERRIDES: &[&[&str]] = &[
     &["*.example.test", "example.test", "a.example.test"],
 ];
 
+/// names that are no host names (empty label, or the `/` sozu's trie reserves for regex
+/// segments): mixed into otherwise valid override lists, before / between / after the valid
+/// names. Whether sozu refuses such a request or loads it is its choice; what the statement
+/// demands is that a refused request changes nothing. (`*`, `*.` and `*.*.x` are left to the
+/// fixed pass below: sozu accepts them and what they should cover is not defined.)
+const MALFORMED_NAMES: &[&str] = &[
+    "bad..name",
+    "a..example.test",
+    ".example.test",
+    "example.test..",
+    "",
+    ".",
+    "example.test/",
+    "a/",
+    "/",
+    "//",
+    "/a",
+    "a.example.test/b",
+    "/[/.example.test",
+];
+
 /// override names that are not in comparison form: judged with both readings (exempt where
 /// they matter)
 const NAME_OVERRIDES_NONCANON: &[&[&str]] = &[
@@ -464,6 +485,10 @@ enum Fault {
     KeyMismatchOtherAlg,
     ChainBadPem,
     ChainNoPemBlock,
+    /// certificate and key intact, but the `names` override mixes host names with a name of
+    /// `MALFORMED_NAMES` (not drawn from `FAULTS`: produced by the names branch of
+    /// `gen_submission`)
+    MalformedName,
 }
 
 impl Fault {
@@ -480,6 +505,7 @@ impl Fault {
             Fault::KeyMismatchOtherAlg => "key_of_other_cert_other_alg",
             Fault::ChainBadPem => "chain_bad_pem_block",
             Fault::ChainNoPemBlock => "chain_without_pem_block",
+            Fault::MalformedName => "malformed_name_in_names",
         }
     }
     /// the certificate field itself is unusable: nothing can have been loaded
@@ -558,7 +584,7 @@ impl Submission {
         let mut ck = c.certificate_and_key();
         ck.names = self.names.clone();
         match self.fault {
-            Fault::None => {}
+            Fault::None | Fault::MalformedName => {}
             Fault::CertGarbage => ck.certificate = "this is not a PEM certificate\n".into(),
             Fault::CertEmpty => ck.certificate = String::new(),
             Fault::CertTruncatedDer => {
@@ -608,6 +634,7 @@ fn gen_submission(
     fault_rate: (u64, u64),
 ) -> Submission {
     let cert = *rng.pick(sub);
+    let mut malformed = false;
     let names: Vec<String> = match rng.below(20) {
         0..=3 => rng
             .pick(NAME_OVERRIDES)
@@ -619,6 +646,24 @@ fn gen_submission(
             .iter()
             .map(|s| (*s).to_owned())
             .collect(),
+        5..=6 => {
+            // host names of the alphabet (probably served already by other certificates of the
+            // history, shorter- and longer-lived) with one malformed name among them: mostly
+            // valid-before-invalid, so that a resolver indexing names one by one has work to undo
+            let mut v: Vec<String> = rng
+                .pick(NAME_OVERRIDES)
+                .iter()
+                .map(|s| (*s).to_owned())
+                .collect();
+            let at = match rng.below(10) {
+                0..=1 => 0,
+                2..=5 => v.len(),
+                _ => rng.urange(1, v.len()),
+            };
+            v.insert(at, (*rng.pick(MALFORMED_NAMES)).to_owned());
+            malformed = true;
+            v
+        }
         _ => vec![],
     };
     let expired_at = match rng.below(20) {
@@ -637,9 +682,15 @@ fn gen_submission(
         ])),
         _ => None,
     };
-    let mut fault = Fault::None;
+    // the renewal shape: the refused certificate would have been the longest-lived
+    let expired_at = if malformed && rng.chance(1, 3) {
+        Some(*rng.pick(&[i64::MAX, 5_000_000_000, 4_943_964_766]))
+    } else {
+        expired_at
+    };
+    let mut fault = if malformed { Fault::MalformedName } else { Fault::None };
     let mut key_from = None;
-    if rng.chance(fault_rate.0, fault_rate.1) {
+    if !malformed && rng.chance(fault_rate.0, fault_rate.1) {
         fault = *rng.pick(FAULTS);
         if matches!(
             fault,
@@ -1209,6 +1260,36 @@ impl<'a> Lab<'a> {
         }
     }
 
+    /// evidence for the mixed valid / malformed name lists: which shapes were submitted (the
+    /// verdict on them is the ordinary one: an operation answered Err changes no probe)
+    fn count_mixed_names(&self, rep: &mut Report, verb: &str, sub: &Submission) {
+        if sub.fault != Fault::MalformedName || self.model.loaded.contains_key(&sub.cert) {
+            return;
+        }
+        let Some(at) = sub.names.iter().position(|n| MALFORMED_NAMES.contains(&n.as_str())) else {
+            return;
+        };
+        rep.obs(&format!("mixed_names/{verb}/submitted"), 1);
+        if at == 0 {
+            return;
+        }
+        rep.obs(&format!("mixed_names/{verb}/submitted_valid_before_invalid"), 1);
+        let new_expiry = sub.entry(self.pool).expiry;
+        let (mut shorter, mut longer) = (false, false);
+        for e in self.model.loaded.values() {
+            if e.names.iter().any(|n| sub.names[..at].contains(n)) {
+                shorter |= e.expiry < new_expiry;
+                longer |= e.expiry > new_expiry;
+            }
+        }
+        if shorter {
+            rep.obs("mixed_names/valid_name_already_served_by_shorter_lived_certificate", 1);
+        }
+        if longer {
+            rep.obs("mixed_names/valid_name_already_served_by_longer_lived_certificate", 1);
+        }
+    }
+
     fn install(&mut self, sub: &Submission) {
         self.model.loaded.insert(sub.cert, sub.entry(self.pool));
         self.model.removed.remove(&sub.cert);
@@ -1319,6 +1400,7 @@ fn run_history(ctx: &Ctx, pool: &CertPool, probes: &[Probe], case: u64, rep: &mu
                 certificate: s.build(pool),
                 expired_at: s.expired_at,
             };
+            lab.count_mixed_names(rep, "add", &s);
             let res = lab.lock().add_certificate(&add);
             let was_loaded = lab.model.loaded.contains_key(&s.cert);
             shape.extend_from_slice(&[
@@ -1461,6 +1543,7 @@ fn run_history(ctx: &Ctx, pool: &CertPool, probes: &[Probe], case: u64, rep: &mu
                 old_fingerprint: old_text.clone(),
                 new_expired_at: s.expired_at,
             };
+            lab.count_mixed_names(rep, "replace", &s);
             let res = lab.lock().replace_certificate(&replace);
             shape.extend_from_slice(&[
                 2,
@@ -1700,6 +1783,10 @@ pub fn run_resolver(ctx: &Ctx, rep: &mut Report) {
         "failing_add_invariance_checked",
         "add_idempotent_already_loaded",
         "names_for_sni_compared",
+        "mixed_names/add/submitted_valid_before_invalid",
+        "mixed_names/replace/submitted_valid_before_invalid",
+        "mixed_names/valid_name_already_served_by_shorter_lived_certificate",
+        "mixed_names/valid_name_already_served_by_longer_lived_certificate",
     ] {
         rep.require(k);
     }
@@ -3571,7 +3658,7 @@ fn namespaced(mut r: Report, ns: &str) -> Report {
 pub fn run(ctx: &Ctx) -> Report {
     let mut rep = Report::new(
         "exploration",
-        "(a) random histories (6..34 operations) of add / remove / replace on a CertificateResolver over a sub-pool of 3..9 of 24 committed certificates (overlapping exact and one-label wildcard names, RSA and ECDSA, CN-only, IDN, different lifetimes), with name and expiry overrides, re-adds, replacements by itself, unknown / malformed old fingerprints and injected faults (bad PEM, truncated DER, wrong key, bad chain); after every operation 66 probes (16 names x case variants, trailing dot, U-label) are resolved through domain_lookup / names_for_sni / get_certificate and through ResolvesServerCert::resolve and compared with a reference model of the statement. (b) the same kind of histories (6..16 commands) sent as AddCertificate / RemoveCertificate / ReplaceCertificate to a live worker with an HTTPS listener; every 1..3 commands (and after every failing one) a real TLS handshake per probe (16 names x lower / upper or mixed case with the rustls client, trailing dot and U-label with a hand-built TLS 1.2 hello) and the presented leaf is compared with the same model; half of the replaces run while a second thread keeps handshaking; requests (H1 and H2 over TLS; authority in 8 forms: case, port, trailing dot, U-label) on a third of the canonical connections and, in every 6th cell, a fixed script where the resolver changes after / during the handshake, judged against the certificate served on the connection by what the recording backend saw. A case is non-trivial when it held >= 2 certificates at once or removed / replaced a loaded one; distinct = distinct operation-shape sequences",
+        "(a) random histories (6..34 operations) of add / remove / replace on a CertificateResolver over a sub-pool of 3..9 of 24 committed certificates (overlapping exact and one-label wildcard names, RSA and ECDSA, CN-only, IDN, different lifetimes), with name and expiry overrides, re-adds, replacements by itself, unknown / malformed old fingerprints and injected faults (bad PEM, truncated DER, wrong key, bad chain, a malformed name before / between / after valid override names); after every operation 66 probes (16 names x case variants, trailing dot, U-label) are resolved through domain_lookup / names_for_sni / get_certificate and through ResolvesServerCert::resolve and compared with a reference model of the statement. (b) the same kind of histories (6..16 commands) sent as AddCertificate / RemoveCertificate / ReplaceCertificate to a live worker with an HTTPS listener; every 1..3 commands (and after every failing one) a real TLS handshake per probe (16 names x lower / upper or mixed case with the rustls client, trailing dot and U-label with a hand-built TLS 1.2 hello) and the presented leaf is compared with the same model; half of the replaces run while a second thread keeps handshaking; requests (H1 and H2 over TLS; authority in 8 forms: case, port, trailing dot, U-label) on a third of the canonical connections and, in every 6th cell, a fixed script where the resolver changes after / during the handshake, judged against the certificate served on the connection by what the recording backend saw. A case is non-trivial when it held >= 2 certificates at once or removed / replaced a loaded one; distinct = distinct operation-shape sequences",
     );
     // (a) may use up to 45 % of the budget, (b) the rest but for a teardown margin
     let mut ctx_a = ctx.clone();
